@@ -2,6 +2,7 @@
 //! and records what it observes.  It never judges beyond comparing with the expectation carried by the case.
 
 mod conv;
+mod debugsym;
 mod jets;
 mod layout;
 mod prog;
